@@ -2,8 +2,8 @@
    Statements only: each theorem is closed by [exact lemma] and followed by
    Print Assumptions.  The lemmas live in thm/IoHelpersThm.v, the model in
    model/IoHelpers.v (tied to compio-io by the correspondence check c11). *)
-From Compio.Model Require Import Base IoHelpers.
-From Compio.Thm Require Import IoHelpersThm.
+From Compio.Model Require Import Base IoHelpers Buf IoVectored.
+From Compio.Thm Require Import IoHelpersThm BufThm IoVectoredThm.
 
 (* read_exact, for EVERY schedule of the inner reader (chunk sizes, Interrupted,
    errors, EOF at any position), payload and buffer (length <= capacity, incl. 0):
@@ -225,3 +225,63 @@ Example C11_known_copy_bufsize0_refuted :
   copy [AChunk 8] [1;2;3]%N [AChunk 8] 0 = (OOk 0, [1;2;3]%N, [WFlush; WShutdown]).
 Proof. vm_compute. reflexivity. Qed.
 Print Assumptions C11_known_copy_bufsize0_refuted.
+
+(* vectored-exact reads: AsyncReadExt::read_vectored_exact over a reader that has
+   only the DEFAULT read_vectored (VectoredBufIter over buf.slice_mut(read)), on
+   the vectored-buffer model of C10 (model/Buf.v).  Guard [vec_members]: every
+   member is a Vec<u8> with len <= capacity (ANY fill state: pre-existing
+   content, spare capacity, empty members, capacity 0).  For EVERY schedule of
+   the inner reader (short reads, Interrupted, errors, EOF anywhere) and payload:
+   never a panic; the bytes consumed from the stream are exactly the bytes
+   placed, in stream order, into the concatenated capacities of the members from
+   offset 0 of the first member; every other cell is untouched; every delivered
+   byte lies inside the initialised part ([pos_ok]: members before position n are
+   full, the member holding it has len >= offset); no length shrinks; Ok iff the
+   whole capacity was filled, and then every member is full. *)
+Theorem C11_read_vectored_exact : forall sched src ms,
+  vec_members ms = true ->
+  exists o ms' src' sched' n,
+    read_vectored_exact sched src ms = Ok (o, ms', src', sched') /\
+    n <= length src /\ n <= total_capacity ms /\ src' = skipn n src /\
+    map rcap ms' = map rcap ms /\
+    flat_cells ms' = firstn n src ++ skipn n (flat_cells ms) /\
+    pos_ok ms' n /\ vec_members ms' = true /\
+    Forall2 (fun m m' => rlen m <= rlen m') ms ms' /\
+    (forall k, o = OOk k ->
+       n = total_capacity ms /\ k = n /\ Forall (fun m => rlen m = rcap m) ms').
+Proof. exact read_vectored_exact_correct. Qed.
+Print Assumptions C11_read_vectored_exact.
+
+(* the guard is satisfiable by a non-trivial buffer (partly filled member, member
+   of capacity 0, fresh member), and the function does what the theorem says on
+   it: chunks of 1 and 2, an Interrupted, then the rest *)
+Example C11_nonvacuous_read_vectored_exact :
+  let ms := [mkroot KVec [50;51;52;53]%N 3 0; mkroot KVec [] 0 0; mkroot KVec [60;61;62]%N 0 0] in
+  vec_members ms = true /\
+  read_vectored_exact [AChunk 1; AChunk 2; AErr E_INTERRUPTED; AChunk 9; AChunk 9] [1;2;3;4;5;6;7;8;9]%N ms
+  = Ok (OOk 7, [mkroot KVec [1;2;3;4]%N 4 0; mkroot KVec [] 0 0; mkroot KVec [5;6;7]%N 3 0], [8;9]%N, []).
+Proof. cbn zeta. split; vm_compute; reflexivity. Qed.
+Print Assumptions C11_nonvacuous_read_vectored_exact.
+
+(* a source that ends early: UnexpectedEof, the delivered bytes recorded *)
+Example C11_read_vectored_exact_eof :
+  read_vectored_exact [AChunk 9; AChunk 9; AChunk 9] [1;2;3;4;5]%N
+    [mkroot KVec [50;51;52;53]%N 0 0; mkroot KVec [60;61;62]%N 2 0]
+  = Ok (OErr E_UNEXPECTED_EOF, [mkroot KVec [1;2;3;4]%N 4 0; mkroot KVec [5;61;62]%N 2 0], [], []).
+Proof. vm_compute. reflexivity. Qed.
+Print Assumptions C11_read_vectored_exact_eof.
+
+(* Known finding (C10's advance_vec_to / vectored set_len defects reached through
+   <[u8]>::read_vectored_exact_at, whose read_vectored_at records with
+   advance_vec_to): a source shorter than the total capacity and members that are
+   not in sequential-fill order.  2 bytes into [Vec(len 0, cap 4), Vec(len 3, cap 4)]:
+   the first call records nothing (2 <= total length 3), the second call panics in
+   slice_mut(2).iter_slice(); with 5 bytes the second member is truncated from 3 to 1 *)
+Example C11_known_rvea_short_nonseq_refuted :
+  read_vectored_exact_at [1;2]%N 0 [mkroot KVec [50;51;52;53]%N 0 0; mkroot KVec [60;61;62;63]%N 3 0]
+    = Panic P_SLICE_INDEX /\
+  exists ms', read_vectored_exact_at [1;2;3;4;5]%N 0
+      [mkroot KVec [50;51;52;53]%N 0 0; mkroot KVec [60;61;62;63]%N 3 0]
+    = Ok (OErr E_UNEXPECTED_EOF, ms') /\ map rlen ms' = [4; 1].
+Proof. split; [vm_compute; reflexivity|]. eexists. split; vm_compute; reflexivity. Qed.
+Print Assumptions C11_known_rvea_short_nonseq_refuted.
